@@ -21,6 +21,7 @@ except ImportError:  # py < 3.11
 DIG = [chr(c) for c in range(0x660, 0x1FFFF) if unicodedata.category(chr(c)) == 'Nd']
 IDX = {c: i for i, c in enumerate(DIG)}
 REG = []
+FREE_WIDTH = [False]     # render str(n) / f'{n}' of a symbolic n as a free-width placeholder instead of concretising n
 SEMANTIC_MERGE = [True]   # harnesses whose code under test never compares rendered numbers may switch this off
 
 
@@ -51,14 +52,14 @@ def ph(value, width):
     possible -- an equal number."""
     for k, (v, w) in enumerate(REG):
         if w == width and v is value:
-            return DIG[k] * width
+            return DIG[k] * max(width, 1)
     if SEMANTIC_MERGE[0]:
         for k, (v, w) in enumerate(REG):
             if w == width and _equal(v, value):
-                return DIG[k] * width
+                return DIG[k] * max(width, 1)
     k = len(REG)
     REG.append((value, width))
-    return DIG[k] * width
+    return DIG[k] * max(width, 1)
 
 
 def fixed(n, size):
@@ -71,7 +72,7 @@ def fixed(n, size):
 def unint(s, *a):
     if isinstance(s, str) and s and s[0] in IDX:
         k = IDX[s[0]]
-        if s != s[0] * len(s) or len(s) != REG[k][1]:
+        if s != s[0] * len(s) or len(s) != max(REG[k][1], 1):
             raise ValueError('placeholder cut in pieces: %r' % (s,))
         return REG[k][0]
     if type(s).__name__ in ('SymInt', 'SymbolicInt', 'SymbolicBoundedInt'):
@@ -93,7 +94,11 @@ def decode(s):
             if lit:
                 out.append(lit)
                 lit = ''
-            out.append((REG[IDX[c]][0], j - i))
+            if REG[IDX[c]][1] == 0:
+                j = i + 1
+                out.append((REG[IDX[c]][0], 0))      # free-width rendering (str(n))
+            else:
+                out.append((REG[IDX[c]][0], j - i))
             i = j
         else:
             lit += c
@@ -134,7 +139,9 @@ def same(a, b):
             if not (isinstance(x, str) and isinstance(y, str) and x == y):
                 return False
         else:
-            if x[1] != y[1] or not (x[0] == y[0]):
+            if x[1] != y[1] and x[1] != 0 and y[1] != 0:
+                return False
+            if not (x[0] == y[0]):
                 return False
     return True
 
@@ -335,6 +342,8 @@ def install_symx_hook():
             w = int(spec[1])
             if 0 <= obj < 10 ** w:
                 return ph(obj, w)
+        if spec == '' and FREE_WIDTH[0]:
+            return ph(obj, 0)
         return format(int(obj), spec)
     symx.FORMAT_HOOK[0] = fmt
     if reset not in symx.RESET_HOOKS:
